@@ -36,6 +36,11 @@ BlackOK(e, t) ==
           LET r == BlackMatrixGlobal(v, t.w, t.h) IN
           IF r.nf = 1 THEN e.err2 = 1 ELSE e.err2 = 0 /\ e.st = ChunkRows(r.bits)
 
+\* brot / bcrop with pre = 1: the parent bitmap had its matrix cached before the child was made; afterwards it must still be the
+\* bitmap of the current view (a child must not share or turn the parent's cached matrix)
+ParentOK(e, t) == Has(e, "pre") /\ e.pre = 1 =>
+  BlackOK([e EXCEPT !.w = e.pw, !.h = e.ph, !.mw = e.pmw, !.mh = e.pmh, !.st = e.pst, !.err2 = e.perr], t)
+
 BaseOK(e) == e.bw >= 1 /\ e.bh >= 1 /\ Len(e.base) = e.bh /\ \A y \in 1..e.bh : Len(e.base[y]) = e.bw
 
 Judge(e) ==
@@ -59,7 +64,7 @@ Judge(e) ==
              \* optional 5th argument: a row fetched singly from the crop result
              rowok == Len(a) < 5 \/ (IF a[5] < 0 \/ a[5] >= tc.h THEN e.rerr # 0
                                      ELSE e.rerr = 0 /\ Len(e.rrow) = tc.w /\ e.rrow = ViewRow(tc, a[5]))
-             same == IF e.op = "crop" THEN PixelsOK(e, tc) /\ rowok ELSE BlackOK(e, tc)
+             same == IF e.op = "crop" THEN PixelsOK(e, tc) /\ rowok ELSE BlackOK(e, tc) /\ ParentOK(e, s)
              nxt == IF e.op = "crop" /\ e.err = 0 /\ e.adopt = 1 THEN tc ELSE s
          IN (CASE cls = "deg" -> J(TRUE, "", s)
               [] cls \in {"neg", "out"} ->
@@ -72,7 +77,7 @@ Judge(e) ==
     [] e.op \in {"rotate", "brot"} ->
          IF e.err # 0 THEN J(e.panic = 0 /\ e.rotsup = 0, IF e.panic = 1 THEN "panic" ELSE "rotation_refused", s)
          ELSE (LET tr == RotateOf(s) IN
-               J(e.panic = 0 /\ (IF e.op = "rotate" THEN PixelsOK(e, tr) ELSE BlackOK(e, tr)),
+               J(e.panic = 0 /\ (IF e.op = "rotate" THEN PixelsOK(e, tr) ELSE BlackOK(e, tr) /\ ParentOK(e, s)),
                  IF e.panic = 1 THEN "panic" ELSE "rotate_pixels", IF e.op = "rotate" THEN tr ELSE s))
     [] e.op = "brow" ->
          IF a[1] < 0 \/ a[1] >= s.h
